@@ -74,7 +74,10 @@ def case_s(draw, kinds=("tcp-lines", "unix-lines", "server", "tcp-lines", "unix-
     if kind not in ("server", "server2") and draw(st.integers(0, 3)) == 0:
         full = draw(st.binary(min_size=1, max_size=8)).hex()
         partial = full[: draw(st.integers(1, len(full)))]
-    return {"kind": kind, "msgs": msgs, "cuts": cuts, "gaps": gaps, "reads": reads, "eof_gap": eof_gap, "wblock": wblock, "partial": partial}
+    # which reads get their time limit from the caller (an enclosing asyncio.timeout(), as wait_for_ecu() and scanners do) instead of
+    # the timeout argument: an abandoned read consumes nothing either
+    outer = draw(st.one_of(st.just([]), st.lists(st.booleans(), min_size=len(reads), max_size=len(reads))))
+    return {"kind": kind, "msgs": msgs, "cuts": cuts, "gaps": gaps, "reads": reads, "eof_gap": eof_gap, "wblock": wblock, "partial": partial, "outer": outer}
 
 
 def f_reply(req: bytes, idx: int) -> bytes | None:
@@ -217,9 +220,14 @@ def check(case: dict[str, Any]) -> list[tuple[str, str]]:
         tr = _make_transport(kind, reader, writer)
         _schedule(loop, reader, arr, t_eof)
         prog = list(case["reads"]) + [1000.3701] * (len(case["msgs"]) + 2)
-        for to in prog:
+        outer = list(case.get("outer") or [])
+        for i_, to in enumerate(prog):
             try:
-                d = await tr.read(timeout=to)
+                if to is not None and i_ < len(outer) and outer[i_]:
+                    async with asyncio.timeout(to):
+                        d = await tr.read(timeout=None)
+                else:
+                    d = await tr.read(timeout=to)
                 got.append(("eof" if d == b"" else "msg", d, loop.time()))
             except TimeoutError:
                 got.append(("timeout", None, loop.time()))
